@@ -13,10 +13,15 @@ PROP = dict(
         # extension: which proxy rule takes a request and what target it is sent to (ProxyRoute.tla, notes/ProxyRoute.md)
         dict(module="ProxyRoute", cfg=dict(quick="ProxyRoute_quick.cfg", thorough="ProxyRoute_thorough.cfg"), emit=True, workers=8,
              timeout=dict(quick=300, thorough=900)),
+        # extension: the connection to the backends - transports, TLS verification, keep-alive, time-outs (BackendTLS.tla, notes/BackendTLS.md)
+        dict(module="BackendTLS", cfg=dict(thorough="BackendTLSLive.cfg"), workers=4, timeout=dict(thorough=600)),
+        dict(module="BackendTLS", cfg=dict(quick="BackendTLS_quick.cfg", thorough="BackendTLS_thorough.cfg"), emit=True, workers=8, coverage=True,
+             timeout=dict(quick=300, thorough=900)),
     ],
     go=[dict(pkg="c04", test="TestC04", timeout=dict(quick=600, thorough=2400)),
         dict(pkg="cx04tunnel", test="TestCx04Tunnel", timeout=dict(quick=600, thorough=1800)),
-        dict(pkg="cx04route", test="TestCx04Route", timeout=dict(quick=600, thorough=1800))],
+        dict(pkg="cx04route", test="TestCx04Route", timeout=dict(quick=600, thorough=1800)),
+        dict(pkg="cx04tls", test="TestCx04TLS", timeout=dict(quick=600, thorough=1800))],
     traces=[dict(name="proxytunnel", module="ProxyTunnelTrace", cfg="ProxyTunnelTrace.cfg", timeout=900)],
     exhaustive=dict(quick=True, thorough=True),
     technique="TLA+ spec ProxyRelay.tla model-checked by TLC; every emitted case replayed through a real casket proxy site "
